@@ -742,8 +742,8 @@ def local_names(fn):
         elif isinstance(n, ast.ExceptHandler) and n.name:
             names.add(n.name)
         elif isinstance(n, (ast.Import, ast.ImportFrom)):
-            for al in n.names:
-                names.add((al.asname or al.name).split(".")[0])
+            # function-level imports are resolved through the module's import map
+            pass
     for st in body:
         if isinstance(st, FUNC_TYPES + (ast.ClassDef,)):
             names.add(st.name)
